@@ -37,12 +37,20 @@ LOW_JITTER_MS = 10     # a run whose 5 ms sleeps never overshot by more than thi
 EXTRA_SLACK = [0]      # set by settle() to ask "does the duration exceed the model by MUCH more than the slack?"
 
 
+def load_ms(o):
+    """how starved of CPU the harness process was while the case ran, in milliseconds of scheduling delay: the larger of
+    jitter_ms (largest overshoot of a goroutine sleeping 5 ms: wake-up latency) and 20 ms per unit of cpu_slowdown - 1
+    (wall / CPU time of a thread burning 2 ms of CPU: the scheduler serves sleepers promptly even when CPU-bound work --
+    TLS, JSON, 2 MB bodies -- crawls, so wake-up latency alone underestimates starvation).  ~0-3 on a quiet machine."""
+    return max(o.get("jitter_ms") or 0, 20.0 * max(0.0, (o.get("cpu_slowdown") or 1.0) - 1.0))
+
+
 def jitter_slack(o):
     """the harness measures, while each case runs, by how much a goroutine sleeping 5 ms overshoots (jitter_ms); a probe
     makes several requests with a handful of wake-ups each, so the duration comparison with the MODEL grants four of them
     on top of the fixed slack -- nothing on a quiet machine, the starvation delay on a loaded one.  The property's own
     bound keeps its fixed slack."""
-    return int(4 * min(o.get("jitter_ms") or 0, 300))
+    return int(4 * min(load_ms(o), 300))
 
 
 def model_slack_of(o):
@@ -330,7 +338,7 @@ def settle(ctx, rows, tag, have_model):
     # observation replaces the original one (class suffix " [timing xK]") and is judged like any other.
     def starved(i):
         o = rows[i]
-        if (o.get("jitter_ms") or 0) <= LOW_JITTER_MS:
+        if load_ms(o) <= LOW_JITTER_MS:
             return False
         if o["obs"] == 4:     # an error where the model expects a record (or another request sequence): a deadline?
             return re.search(r"deadline exceeded|Client\.Timeout|i/o timeout|Cannot connect to the Docker daemon|"
@@ -369,20 +377,20 @@ def settle(ctx, rows, tag, have_model):
         for rnd in range(3):
             if not pending:
                 break
-            jit = max((rows[i].get("jitter_ms") or 0) for i in pending)
+            jit = max(load_ms(rows[i]) for i in pending)
             if jit > LOW_JITTER_MS:
                 time.sleep(min(4.0, 1.0 + jit / 50.0))
             if not redo(pending, "%s_quiet%d" % (tag, rnd), 2):
                 break
             still = [i for i in pending if bad.get(i) or spec_on_impl(rows[i])]
             for i in still:
-                if not duration_only(i) or (rows[i].get("jitter_ms") or 0) <= LOW_JITTER_MS:
+                if not duration_only(i) or load_ms(rows[i]) <= LOW_JITTER_MS:
                     confirmed.add(i)
             rest = [i for i in still if i not in confirmed]
             if rest:
                 sub = {}
                 if have_model:
-                    EXTRA_SLACK[0] = 250 + int(8 * max((rows[i].get("jitter_ms") or 0) for i in rest))
+                    EXTRA_SLACK[0] = 250 + int(8 * max(load_ms(rows[i]) for i in rest))
                     try:
                         sub = evaluate(ctx, [rows[i] for i in rest], "%s_wide%d" % (tag, rnd), 2)
                     finally:
@@ -403,7 +411,7 @@ def settle(ctx, rows, tag, have_model):
         if dropped:
             ctx.info.append("%d duration comparisons were inconclusive because of CPU starvation (scheduling jitter up to "
                             "%.0f ms in every re-run) and are not counted: cases %s" % (
-                                len(dropped), max((rows[i].get("jitter_ms") or 0) for i in dropped),
+                                len(dropped), max(load_ms(rows[i]) for i in dropped),
                                 [rows[i]["id"] for i in dropped][:10]))
     return rows, bad
 
